@@ -31,6 +31,6 @@ HonestAccepted == x.kind = "attempt" /\ x.c0 = "cA" /\ x.c = "cA" /\ x.i /\ x.b 
 \* RSA: the UUID is not bound by definition - a wildcard credential's response is accepted by the other device under the same challenge
 RsaNotDeviceBound == x.kind = "attempt" /\ ~x.binds /\ x.c0 = "cA" /\ x.c = "cA" /\ x.i /\ x.b = B0 /\ x.ch = x.ch0
                     => AttemptVerdict(x, TRUE) = "Accept"
-Layout == x.kind = "case" => LayoutLemma(x.cls, x.ver, x.nkeys)
+Layout == x.kind = "case" => LayoutLemma(x.cls, x.ver, x.nkeys) /\ (x.cls = "ele2" => Msg2Lemma(x.ver))
 Emit == PrintT(ToJson(x))
 =============================================================================
